@@ -47,7 +47,7 @@ def step (fresh : Bool) (s : S) : List String → S × String
   | ["trace", _] => (s, "ok")
   -- a nonce ahead of the simulating machine's clock by `d` ms: accepted or refused by the sender's
   -- stored window alone (refused only when more than the TTL behind a committed one) — the wall
-  -- clock of whoever simulates plays no part. (Leads are ≥ 30 s apart, so clock drift cannot matter.)
+  -- clock of whoever simulates plays no part. (Leads are 0 s, 30 s or more than half an hour apart, so neither clock drift nor a stalled machine can move a decision.)
   | [mode, "future", d] =>
     match d.toInt? with
     | none => (s, "bad-op")
